@@ -45,6 +45,20 @@ def ecdh_neutral_rule(check, repo):
                 ok = not res.rejected()
                 check.ob("D", "D|ecdh.regular.%s" % model, ok, dmod.path, fn.lineno,
                          extracted="regular result: %s" % ("secret returned" if ok else "refused"), expected="returns the x coordinate")
+    # a shared point with x = 0 that is NOT the neutral element ((0, +-sqrt(b)) exists on P-192/256/384/521): Z = 00..00 is returned
+    it = Interp(repo, max_depth=1, method_models={"is_point_at_infinity": lambda i, base, a, kw, st, node: False,
+                                                   "size_in_bytes": lambda i, base, a, kw, st, node: 32})
+    st = State()
+    P = it.new_obj(st, label="P")
+    pub = it.new_obj(st, label="pub", attrs={"pointQ": it.new_obj(st, label="Q")})
+    priv = it.new_obj(st, label="priv", attrs={"d": 3, "curve": "NIST P-256"})
+    it.inject = {"key_pub.pointQ * key_priv.d": P, "pointP.x": 0}
+    res = it.run(dmod, fn, {"key_priv": priv, "key_pub": pub}, state=st)
+    rets = res.returns()
+    got = rets[0].value if len(rets) == 1 and not res.raises() else None
+    check.ob("D", "D|ecdh.x0.weierstrass", isinstance(got, (bytes, bytearray)) and bytes(got) == bytes(32), dmod.path, fn.lineno,
+             extracted="shared point (0, y), not the neutral element: %s" % ("Z = 32 zero bytes" if isinstance(got, (bytes, bytearray)) and bytes(got) == bytes(32) else "refused / %r (%s)" % (got, res.raise_classes())),
+             expected="SP 800-56A 5.7.1.2: only the point at infinity is an error; x = 0 of a finite point is the shared secret 00..00")
 
 
 def neutral_predicate_rows(check, repo):
